@@ -15,6 +15,7 @@ func (m *openGameManager) readyGroupAddParticipant(participant OpenGameParticipa
 }
 
 func (m *openGameManager) readyGroupOnCompleted() {
+	verifHook(m, "completed.enter")
 	for participantID := range m.state.Participants {
 		m.state.Participants[participantID].IsReady = true
 	}
